@@ -327,7 +327,8 @@ def z3_bool_atoms(expr):
     return r
 
 
-def base_support(polys):
+def base_support(polys, closed=False):
+    """input atoms the polynomials depend on (through gate definitions); closed: also through the solved forms of eliminated atoms"""
     seen = set()
     todo = set()
     for p in polys:
@@ -341,6 +342,10 @@ def base_support(polys):
         g = C.gates.get(a)
         if g is None:
             base.add(a)
+            if closed and a in C.subst:
+                # an eliminated atom met below a gate definition (definitions keep the polynomials they were built from):
+                # what is known about the atoms of its solved form is relevant too
+                todo |= patoms(C.subst[a])
         elif g[0] == "arith":
             for o in g[1].operands:
                 todo |= patoms(o.p)
@@ -520,14 +525,14 @@ def solve(constraints, want_model=False, timeout_ms=20000):
 # -------------------------------------------------------------- path condition
 def relevant_pc(p):
     """non-affine constraints sharing (transitively) base support with p"""
-    sup = base_support([p])
+    sup = base_support([p], closed=True)
     rel = []
     rest = list(C.pc_other)
     changed = True
     while changed:
         changed = False
         for q in list(rest):
-            s = base_support([q])
+            s = base_support([q], closed=True)
             if s & sup:
                 sup |= s
                 rel.append(q)
